@@ -143,6 +143,7 @@ type unitCtx struct {
 	structs map[*types.Named]string
 	out     []string // emitted declarations, in dependency order
 	vars    map[types.Object]string
+	imports map[string]bool // other units whose generated definitions this unit refers to (calls across packages)
 }
 
 func (u *unitCtx) fail(n ast.Node, f string, a ...any) {
@@ -933,6 +934,82 @@ func (c *fnCtx) convert(n ast.Node, to, from types.Type, a string) string {
 	}
 }
 
+// externCall: a call of a function of ANOTHER package of the repository that is a `func` item of a unit of that package
+// becomes a reference to that unit's generated definition `Go.<unit>.<name>` (the generated file imports that unit's file;
+// the check that uses this unit must list the other unit's regeneration step as well). What is known about the callee —
+// its Lean name, whether it can panic — comes from translating it, in a loader of its own.
+func (c *fnCtx) externCall(x *ast.CallExpr, fn *types.Func, recv ast.Expr) (string, bool) {
+	u := c.u
+	if fn.Pkg() == nil || !strings.HasPrefix(fn.Pkg().Path(), u.l.modPath+"/") {
+		return "", false
+	}
+	rel := strings.TrimPrefix(fn.Pkg().Path(), u.l.modPath+"/")
+	full := fn.Name()
+	if r := fn.Type().(*types.Signature).Recv(); r != nil {
+		t := r.Type()
+		if p, ok := t.(*types.Pointer); ok {
+			t = p.Elem()
+		}
+		if n, ok := t.(*types.Named); ok {
+			full = n.Obj().Name() + "." + fn.Name()
+		}
+	}
+	for i := range units {
+		ou := &units[i]
+		if ou.Dir != rel || ou == u.unit {
+			continue
+		}
+		found := false
+		for _, it := range ou.Items {
+			if it.Kind == "func" && it.Name == full {
+				found = true
+			}
+		}
+		if !found {
+			continue
+		}
+		l2, err := newLoader(u.l.repo)
+		if err != nil {
+			c.fail(x, "call of %s.%s: %v", rel, full, err)
+		}
+		p2, err := l2.load(l2.modPath+"/"+ou.Dir, true)
+		if err != nil {
+			c.fail(x, "call of %s.%s: %v", rel, full, err)
+		}
+		u2 := &unitCtx{l: l2, p: p2, unit: ou, done: map[types.Object]*fnInfo{}, busy: map[types.Object]bool{},
+			structs: map[*types.Named]string{}, vars: map[types.Object]string{}, imports: map[string]bool{}}
+		fd := u2.lookupFunc(full)
+		if fd == nil {
+			c.fail(x, "call of %s.%s: not found in unit %s", rel, full, ou.Name)
+		}
+		fi := u2.function(fd, p2.info.Defs[fd.Name].(*types.Func))
+		if len(fi.mutPtrs) > 0 || len(fi.hidden) > 0 {
+			c.fail(x, "call of %s.%s across packages: the callee writes through a pointer or depends on a capacity", rel, full)
+		}
+		var args []string
+		if recv != nil {
+			args = append(args, c.argValue(recv))
+		}
+		for _, a := range x.Args {
+			args = append(args, c.argValue(a))
+		}
+		s := "Go." + ou.Name + "." + fi.name
+		for _, a := range args {
+			s += " " + a
+		}
+		if u.imports == nil {
+			u.imports = map[string]bool{}
+		}
+		u.imports[ou.Name] = true
+		if fi.partial {
+			c.part()
+			return "(← " + s + ")", true
+		}
+		return "(" + s + ")", true
+	}
+	return "", false
+}
+
 // natOf: an integer expression as a natural number (a negative value is a panic where Go panics on it: slice bounds, make)
 func (c *fnCtx) natOf(e ast.Expr) string {
 	s := c.expr(e)
@@ -1067,7 +1144,10 @@ func (c *fnCtx) call(x *ast.CallExpr) string {
 		if s, ok := c.stdcall(x, fn); ok {
 			return s
 		}
-		c.fail(x, "call of %s.%s: function of another package", fn.Pkg().Path(), fn.Name())
+		if s, ok := c.externCall(x, fn, recv); ok {
+			return s
+		}
+		c.fail(x, "call of %s.%s: function of another package (and not a func item of a unit of that package)", fn.Pkg().Path(), fn.Name())
 	}
 	fi := c.u.function(x, fn)
 	if len(fi.mutPtrs) > 0 {
